@@ -24,6 +24,7 @@ type c19Expect struct {
 	BadTable string `json:"bad_table,omitempty"`
 	BadCol   string `json:"bad_col,omitempty"`
 	Nested   bool   `json:"nested,omitempty"` // corrupt nested n[0].<BadCol> of row j instead
+	Scalar   bool   `json:"scalar,omitempty"` // the wrong-typed value is a scalar ("n/a") instead of an object
 }
 
 func rowsEqualMaybeOpen(a, b json.RawMessage, open bool) bool {
@@ -57,6 +58,8 @@ func evalC19(b *Bundle, r *Runner) []*Violation {
 	switch exp.Mode {
 	case "stub":
 		return evalC19Stub(b, r, &exp)
+	case "static_error":
+		return evalC19Static(b, r, &exp)
 	default:
 		return evalC19Data(b, r, &exp)
 	}
@@ -118,6 +121,10 @@ func evalC19Stub(b *Bundle, r *Runner, exp *c19Expect) []*Violation {
 			fc := base
 			fc.Stubs.Faults = []casefmt.Fault{{ID: site, K: k, Kind: "error"}}
 			o := r.Run(&fc, false)
+			if v := followUpHang(b, o, fmt.Sprintf("fault at invocation %d of site %d in %q", k, site, exp.FQ.Query)); v != nil {
+				vs = append(vs, v)
+				continue
+			}
 			if hv := processHealth(b, o); len(hv) > 0 {
 				// crashes/hangs under an *error* fault are still C10's, but record it
 				r.Stats.probe("unhealthy_under_fault")
@@ -169,7 +176,11 @@ func positionOfSite(exp *c19Expect, site int) string {
 
 // corruptDoc returns a copy of the document with row j of table (or its first
 // nested element) carrying a value of the wrong type in col.
-func corruptDoc(raw json.RawMessage, table string, j int, col string, nested bool) (json.RawMessage, bool) {
+func corruptDoc(raw json.RawMessage, table string, j int, col string, nested bool, scalar ...bool) (json.RawMessage, bool) {
+	var bad any = map[string]any{"not": "a number"}
+	if len(scalar) > 0 && scalar[0] {
+		bad = "n/a"
+	}
 	var doc map[string]any
 	if err := json.Unmarshal(raw, &doc); err != nil {
 		return nil, false
@@ -191,9 +202,9 @@ func corruptDoc(raw json.RawMessage, table string, j int, col string, nested boo
 		if !ok {
 			return nil, false
 		}
-		nr[col] = map[string]any{"not": "a number"}
+		nr[col] = bad
 	} else {
-		row[col] = map[string]any{"not": "a number"}
+		row[col] = bad
 	}
 	return mustJSON(doc), true
 }
@@ -226,6 +237,9 @@ func evalC19Data(b *Bundle, r *Runner, exp *c19Expect) []*Violation {
 		if strings.Contains(exp.FQ.Shape, "join") && len(urows) == 0 {
 			continue
 		}
+		if strings.Contains(exp.FQ.Shape, "order_key") && len(trows) < 2 {
+			continue // a single row is never compared
+		}
 		if exp.FQ.Shape == "raise_subquery" || exp.FQ.Shape == "raise_exists" {
 			row, _ := trows[j].(map[string]any)
 			if ns, _ := row["n"].([]any); len(ns) == 0 {
@@ -237,7 +251,7 @@ func evalC19Data(b *Bundle, r *Runner, exp *c19Expect) []*Violation {
 			q = strings.ReplaceAll(q, "%J%", fmt.Sprint(j+1))
 			what = fmt.Sprintf("RAISE firing on row %d in %q", j+1, q)
 		case "type_error":
-			d, ok := corruptDoc(b.Case.Docs[0], exp.BadTable, j, exp.BadCol, exp.Nested)
+			d, ok := corruptDoc(b.Case.Docs[0], exp.BadTable, j, exp.BadCol, exp.Nested, exp.Scalar)
 			if !ok {
 				continue
 			}
@@ -246,6 +260,10 @@ func evalC19Data(b *Bundle, r *Runner, exp *c19Expect) []*Violation {
 		}
 		c.Clients = []casefmt.Client{{Name: "client0", Ops: c19Ops(q, exp.FollowUp, false)}}
 		o := r.Run(&c, false)
+		if v := followUpHang(b, o, what); v != nil {
+			vs = append(vs, v)
+			continue
+		}
 		if hv := processHealth(b, o); len(hv) > 0 {
 			r.Stats.probe("unhealthy_under_fault")
 			continue
@@ -284,25 +302,103 @@ var c19RaiseTemplates = []struct{ q, shape string }{
 var c19TypeTemplates = []struct {
 	q, shape, table, col string
 	nested               bool
+	scalar               bool
 }{
-	{"SELECT id, a + 1 AS x FROM t", "type_select", "t", "a", false},
-	{"SELECT id FROM t WHERE a + 1 > 5", "type_where", "t", "a", false},
-	{"SELECT id FROM t WHERE NOT (a * 2 < 5) AND id > 0", "type_where_not", "t", "a", false},
-	{"SELECT id, (SELECT v * 2 AS y FROM n) AS sub FROM t", "type_subquery", "t", "v", true},
-	{"SELECT id FROM t WHERE EXISTS (SELECT v FROM n WHERE v + 1 > 0)", "type_exists", "t", "v", true},
-	{"SELECT id FROM t WHERE id IN (SELECT v + 0 AS y FROM n)", "type_in_subquery", "t", "v", true},
-	{"SELECT * FROM (SELECT id, a - 1 AS x FROM t) d", "type_derived", "t", "a", false},
-	{"WITH c AS (SELECT id, -a AS x FROM t) SELECT * FROM c", "type_cte", "t", "a", false},
-	{"SELECT id FROM u UNION ALL SELECT a % 7 AS id FROM t", "type_union", "t", "a", false},
-	{"SELECT * FROM t x JOIN u y ON x.f AND y.g", "type_join_on", "t", "f", false},
-	{"SELECT s, COUNT(*) AS c FROM t GROUP BY s HAVING SUM(a) + 1 > 0", "type_having_sum", "t", "a", false},
-	{"SELECT id, CASE WHEN a + 0 > 10 THEN 'big' ELSE 'small' END AS x FROM t", "type_case_cond", "t", "a", false},
-	{"SELECT id, CONCAT(s, SUBSTR(s, a, 1)) AS x FROM t", "type_function_arg", "t", "a", false},
+	{"SELECT COUNT(*) AS c FROM t GROUP BY o.p", "type_group_key", "t", "o", false, true},
+	{"SELECT s, COUNT(*) AS c FROM t GROUP BY s, o.q", "type_group_key2", "t", "o", false, true},
+	{"SELECT id, o FROM t ORDER BY o.p", "type_order_key", "t", "o", false, true},
+	{"SELECT * FROM t ORDER BY o.p DESC", "type_order_key2", "t", "o", false, true},
+	{"SELECT * FROM (SELECT id, o FROM t ORDER BY o.p) d", "type_order_key_derived", "t", "o", false, true},
+	{"SELECT id, o.p AS p FROM t", "type_select_path", "t", "o", false, true},
+	{"SELECT id FROM t WHERE o.p >= 0", "type_where_path", "t", "o", false, true},
+	{"SELECT id, a + 1 AS x FROM t", "type_select", "t", "a", false, false},
+	{"SELECT id FROM t WHERE a + 1 > 5", "type_where", "t", "a", false, false},
+	{"SELECT id FROM t WHERE NOT (a * 2 < 5) AND id > 0", "type_where_not", "t", "a", false, false},
+	{"SELECT id, (SELECT v * 2 AS y FROM n) AS sub FROM t", "type_subquery", "t", "v", true, false},
+	{"SELECT id FROM t WHERE EXISTS (SELECT v FROM n WHERE v + 1 > 0)", "type_exists", "t", "v", true, false},
+	{"SELECT id FROM t WHERE id IN (SELECT v + 0 AS y FROM n)", "type_in_subquery", "t", "v", true, false},
+	{"SELECT * FROM (SELECT id, a - 1 AS x FROM t) d", "type_derived", "t", "a", false, false},
+	{"WITH c AS (SELECT id, -a AS x FROM t) SELECT * FROM c", "type_cte", "t", "a", false, false},
+	{"SELECT id FROM u UNION ALL SELECT a % 7 AS id FROM t", "type_union", "t", "a", false, false},
+	{"SELECT * FROM t x JOIN u y ON x.f AND y.g", "type_join_on", "t", "f", false, false},
+	{"SELECT s, COUNT(*) AS c FROM t GROUP BY s HAVING SUM(a) + 1 > 0", "type_having_sum", "t", "a", false, false},
+	{"SELECT id, CASE WHEN a + 0 > 10 THEN 'big' ELSE 'small' END AS x FROM t", "type_case_cond", "t", "a", false, false},
+	{"SELECT id, CONCAT(s, SUBSTR(s, a, 1)) AS x FROM t", "type_function_arg", "t", "a", false, false},
+}
+
+// queries that fail for a reason that is neither a stub fault nor data: an
+// unparsable selector text, an unknown function, a malformed path. The failed
+// query must not leave anything behind (a held lock, a poisoned cache entry).
+var c19StaticErrorQueries = []string{
+	"SELECT id, `tags[(0:1:2)]` AS x FROM t",
+	"SELECT id FROM t WHERE `tags[first]` = 1",
+	"SELECT id, `n[(1:`  AS x FROM t",
+	"SELECT id FROM `t[(a:b)]`",
+	"SELECT id, (SELECT `v[zz]` AS y FROM n) AS sub FROM t",
+	"WITH c AS (SELECT `tags[last]` AS x FROM t) SELECT * FROM c",
+	"SELECT id FROM t WHERE EXISTS (SELECT `w[(0:1:2)]` FROM n)",
+	"SELECT id, nosuchfunction(a) AS x FROM t",
+	"SELECT * FROM t x JOIN u y ON x.`id[first]` = y.id",
+}
+
+func evalC19Static(b *Bundle, r *Runner, exp *c19Expect) []*Violation {
+	c := b.Case
+	c.Clients = []casefmt.Client{{Name: "client0", Ops: c19Ops(exp.FQ.Query, exp.FollowUp, true)}}
+	o := r.Run(&c, false)
+	what := fmt.Sprintf("statically failing query %q", exp.FQ.Query)
+	if v := followUpHang(b, o, what); v != nil {
+		return []*Violation{v}
+	}
+	if hv := processHealth(b, o); len(hv) > 0 {
+		r.Stats.probe("unhealthy_under_fault")
+		return nil
+	}
+	if !failed(&o.Ops[0]) && o.Ops[0].Panic == "" {
+		r.Stats.probe("static_error_query_succeeded_skipped")
+		return nil
+	}
+	r.Stats.probe("static_error_fault")
+	alone := c
+	alone.Clients = []casefmt.Client{{Name: "client0", Ops: []casefmt.Op{{Doc: 0, Vars: -1, Query: exp.FollowUp}}}}
+	oa := r.Run(&alone, false)
+	if len(processHealth(b, oa)) > 0 {
+		return nil
+	}
+	if opOutcome(&o.Ops[1]) != opOutcome(&oa.Ops[0]) || (opOutcome(&oa.Ops[0]) == "ok" && !rowsEqualMaybeOpen(o.Ops[1].Rows, oa.Ops[0].Rows, false)) {
+		return []*Violation{mkViolation(b, "FOLLOWUP_DIFFERS", posOf(b), fmt.Sprintf("%s\n follow-up %q after the failure: %s %s%s%s\n alone on an equal input: %s %s%s", what, exp.FollowUp, compact(o.Ops[1].Rows), o.Ops[1].NewErr, o.Ops[1].ExecErr, o.Ops[1].Panic, compact(oa.Ops[0].Rows), oa.Ops[0].NewErr, oa.Ops[0].ExecErr), o)}
+	}
+	if opOutcome(&o.Ops[2]) != opOutcome(&o.Ops[0]) {
+		return []*Violation{mkViolation(b, "REPEAT_DIFFERS", posOf(b), fmt.Sprintf("%s: first attempt %s, second attempt in the same process %s", what, opOutcome(&o.Ops[0]), opOutcome(&o.Ops[2])), o)}
+	}
+	return nil
+}
+
+// followUpHang: the failed query returned, but a later query in the same
+// process never did (deadlock or livelock): the library did not stay usable.
+func followUpHang(b *Bundle, o *casefmt.Obs, what string) *Violation {
+	if o.Fatal != "" || (o.Sim.Outcome != "deadlock" && o.Sim.Outcome != "step_budget") {
+		return nil
+	}
+	if len(o.Ops) < 2 || !o.Ops[0].Returned || (!failed(&o.Ops[0]) && o.Ops[0].Panic == "") {
+		return nil
+	}
+	for i := 1; i < len(o.Ops); i++ {
+		if o.Ops[i].Started && !o.Ops[i].Returned {
+			var who []string
+			for _, t := range o.Sim.Tasks {
+				if t.State == "blocked" {
+					who = append(who, fmt.Sprintf("task %d (%s) on %s", t.ID, t.Name, t.BlockedOn))
+				}
+			}
+			return mkViolation(b, "FOLLOWUP_HANGS", posOf(b), fmt.Sprintf("%s reported its failure (%s%s%s), but the next query on the same input never returned (%s): %s", what, o.Ops[0].NewErr, o.Ops[0].ExecErr, o.Ops[0].Panic, o.Sim.Outcome, strings.Join(who, "; ")), o)
+		}
+	}
+	return nil
 }
 
 func genC19(t *rapid.T) *Bundle {
 	doc := faultDoc(t)
-	mode := rapid.SampledFrom([]string{"stub", "stub", "stub", "raise", "type_error"}).Draw(t, "mode")
+	mode := rapid.SampledFrom([]string{"stub", "stub", "stub", "raise", "type_error", "type_error", "static_error"}).Draw(t, "mode")
 	follow := rapid.SampledFrom(followUps).Draw(t, "follow")
 	sim := casefmt.SimConfig{Strategy: "np", MapPolicy: rapid.SampledFrom([]string{"sorted", "reverse", "random"}).Draw(t, "map_policy"), MapSeed: uint64(rapid.IntRange(0, 1000).Draw(t, "map_seed"))}
 	exp := c19Expect{Mode: mode, FollowUp: follow}
@@ -318,7 +414,10 @@ func genC19(t *rapid.T) *Bundle {
 		tpl := rapid.SampledFrom(c19TypeTemplates).Draw(t, "type_tpl")
 		exp.FQ = faultQuery{Query: tpl.q, Shape: tpl.shape}
 		exp.NRows = nrows
-		exp.BadTable, exp.BadCol, exp.Nested = tpl.table, tpl.col, tpl.nested
+		exp.BadTable, exp.BadCol, exp.Nested, exp.Scalar = tpl.table, tpl.col, tpl.nested, tpl.scalar
+	case "static_error":
+		tpl := rapid.SampledFrom(c19StaticErrorQueries).Draw(t, "static_tpl")
+		exp.FQ = faultQuery{Query: tpl, Shape: "static_error"}
 	}
 	c := oneClientCase("C19", sim, doc, casefmt.Op{Doc: 0, Vars: -1, Query: exp.FQ.Query})
 	tags := []string{"mode:" + mode, "shape:" + exp.FQ.Shape}
@@ -333,9 +432,9 @@ func genC19(t *rapid.T) *Bundle {
 func corpusC19() []*Bundle {
 	doc := map[string]any{
 		"t": []any{
-			map[string]any{"id": 1.0, "a": 10.0, "s": "x", "f": true, "n": []any{map[string]any{"v": 1.0, "w": "p"}, map[string]any{"v": 2.0, "w": "q"}}},
-			map[string]any{"id": 2.0, "a": 20.0, "s": "xy", "f": false, "n": []any{map[string]any{"v": 3.0, "w": "p"}}},
-			map[string]any{"id": 3.0, "a": 30.0, "s": "x", "f": true, "n": []any{}},
+			map[string]any{"id": 1.0, "a": 10.0, "s": "x", "f": true, "n": []any{map[string]any{"v": 1.0, "w": "p"}, map[string]any{"v": 2.0, "w": "q"}}, "o": map[string]any{"p": 1.0, "q": "k"}, "tags": []any{"x", "y"}},
+			map[string]any{"id": 2.0, "a": 20.0, "s": "xy", "f": false, "n": []any{map[string]any{"v": 3.0, "w": "p"}}, "o": map[string]any{"p": 2.0, "q": "m"}, "tags": []any{"y"}},
+			map[string]any{"id": 3.0, "a": 30.0, "s": "x", "f": true, "n": []any{}, "o": map[string]any{"p": 1.0, "q": "k"}, "tags": []any{}},
 		},
 		"u":    []any{map[string]any{"id": 1.0, "b": "k", "g": true}, map[string]any{"id": 3.0, "b": "m", "g": false}},
 		"meta": map[string]any{"ip": "10.0.0.1"},
@@ -380,7 +479,7 @@ func corpusC19() []*Bundle {
 		out = append(out, &Bundle{Prop: "C19", Kind: "corpus", Case: mkCase(tpl.q), Expect: mustJSON(exp), Tags: []string{"corpus", "mode:raise", "shape:" + tpl.shape}})
 	}
 	for i, tpl := range c19TypeTemplates {
-		exp := c19Expect{Mode: "type_error", FollowUp: followUps[i%len(followUps)], FQ: faultQuery{Query: tpl.q, Shape: tpl.shape}, NRows: 3, BadTable: tpl.table, BadCol: tpl.col, Nested: tpl.nested}
+		exp := c19Expect{Mode: "type_error", FollowUp: followUps[i%len(followUps)], FQ: faultQuery{Query: tpl.q, Shape: tpl.shape}, NRows: 3, BadTable: tpl.table, BadCol: tpl.col, Nested: tpl.nested, Scalar: tpl.scalar}
 		out = append(out, &Bundle{Prop: "C19", Kind: "corpus", Case: mkCase(tpl.q), Expect: mustJSON(exp), Tags: []string{"corpus", "mode:type_error", "shape:" + tpl.shape}})
 	}
 	return out
